@@ -1,4 +1,4 @@
-package main
+package hlib
 
 import (
 	"context"
@@ -26,8 +26,8 @@ import (
 
 // ---- plain (non-lake) queries ------------------------------------------------------
 
-// pullAll drains a puller into ZSON strings, one per value, in output order.
-func pullAll(p zbuf.Puller) ([]string, error) {
+// PullAll drains a puller into ZSON strings, one per value, in output order.
+func PullAll(p zbuf.Puller) ([]string, error) {
 	var out []string
 	for {
 		b, err := p.Pull(false)
@@ -60,23 +60,23 @@ func QueryZSON(q, input string) (out []string, err error) {
 			return err
 		}
 		defer query.Pull(true)
-		out, err = pullAll(query)
+		out, err = PullAll(query)
 		return err
 	})
 	return out, e
 }
 
-func sortedCopy(xs []string) []string {
+func SortedCopy(xs []string) []string {
 	ys := append([]string(nil), xs...)
 	sort.Strings(ys)
 	return ys
 }
 
-func sameMultiset(a, b []string) bool {
+func SameMultiset(a, b []string) bool {
 	if len(a) != len(b) {
 		return false
 	}
-	x, y := sortedCopy(a), sortedCopy(b)
+	x, y := SortedCopy(a), SortedCopy(b)
 	for i := range x {
 		if x[i] != y[i] {
 			return false
@@ -85,7 +85,7 @@ func sameMultiset(a, b []string) bool {
 	return true
 }
 
-func sameSeq(a, b []string) bool {
+func SameSeq(a, b []string) bool {
 	if len(a) != len(b) {
 		return false
 	}
@@ -165,7 +165,7 @@ func (l *TLake) QueryAt(head *lakeparse.Commitish, q string) (out []string, err 
 			return err
 		}
 		defer query.Pull(true)
-		out, err = pullAll(query)
+		out, err = PullAll(query)
 		return err
 	})
 	return out, e
@@ -187,7 +187,7 @@ func (l *TLake) QueryP(q string, parallelism int) (out []string, err error) {
 			return err
 		}
 		defer query.Pull(true)
-		out, err = pullAll(query)
+		out, err = PullAll(query)
 		return err
 	})
 	return out, e
@@ -208,4 +208,26 @@ func (l *TLake) ObjectIDs(pool, branch string) ([]string, error) {
 	return l.Query(fmt.Sprintf("from %s@%s:objects | yield ksuid(id)", pool, branch))
 }
 
-func zsonQuoteString(s string) string { return zson.QuotedString([]byte(s)) }
+func ZsonQuoteString(s string) string { return zson.QuotedString([]byte(s)) }
+
+// MsDiff returns up to n elements of a that are not in b (as multisets).
+func MsDiff(a, b []string, n int) []string {
+	cnt := map[string]int{}
+	for _, x := range b {
+		cnt[x]++
+	}
+	var out []string
+	for _, x := range a {
+		if cnt[x] > 0 {
+			cnt[x]--
+			continue
+		}
+		if len(out) < n {
+			out = append(out, x)
+		}
+	}
+	return out
+}
+
+// MsDiffAll is the multiset difference a - b.
+func MsDiffAll(a, b []string) []string { return MsDiff(a, b, len(a)) }
